@@ -12,6 +12,7 @@ import (
 	"os"
 	"path/filepath"
 	"sort"
+	"strconv"
 	"strings"
 	"sync"
 	"testing"
@@ -279,6 +280,13 @@ func c19Pw(p string) string {
 		return c19Long[:72] + "-another-tail-entirely"
 	}
 	return map[string]string{"p1": "correct-horse-1", "p2": "battery-staple-2", "e": ""}[p]
+}
+func c19SampleN() int {
+	n, err := strconv.Atoi(os.Getenv("C19_SAMPLE"))
+	if err != nil || n < 1 {
+		return 1
+	}
+	return n
 }
 func c19Email(u string, v int) string { return fmt.Sprintf("%s.v%d@example.com", u, v) }
 
@@ -820,7 +828,13 @@ func TestC19(t *testing.T) {
 				// the bcrypt-bound transitions (about 60 ms each: the server hashes with the default
 				// cost) are executed from a third of the states, and always when they lead to a state that has
 				// no concrete snapshot yet (reachability)
-				if (ed.Act.N == "Login" || ed.Act.N == "SSOLogin" || (ed.Act.N == "PutUser" && ed.Act.Pw != "keep")) && hashKey(fk)[0]%3 != 0 {
+				// the large graphs of the thorough tier (0.5 M and 1 M transitions) are sampled: one transition in
+				// C19_SAMPLE, chosen by hash and VERIF_SEED, plus every transition needed for reachability
+				skip := (ed.Act.N == "Login" || ed.Act.N == "SSOLogin" || (ed.Act.N == "PutUser" && ed.Act.Pw != "keep")) && hashKey(fk)[0]%3 != 0
+				if n := c19SampleN(); n > 1 && (int(hashKey(key)[1])+int(seedVal()))%n != 0 {
+					skip = true
+				}
+				if skip {
 					snapMu.Lock()
 					_, have := snaps[ed.To.key()]
 					snapMu.Unlock()
